@@ -122,7 +122,7 @@ def main():
     # NA = 2
     nw = 3
     alpha, alpha_n = ("Alpha6a", 6)
-    k_mc, k_ex = (9000, 12000) if quick else (300, 600)   # of 6^6 = 46656 assignments
+    k_mc, k_ex = (9000, 12000) if quick else (900, 2500)   # of 6^6 = 46656 assignments
     mc = hvsrobj.cfg_text(2, nw, 6, alpha, "Ranges6s", "NSetA", "MaxItsA", "InitEnv", export=False,
                           invariants=["TypeOK", "PeaksCurrent", "AccFnHavePeaks", "EqualCountsIsPooled",
                                       "AzimuthOrderIrrelevant", "MeanOfAzimuthMeans"], props=["TdStep"])
@@ -148,7 +148,7 @@ def main():
 
     # NA = 1: the weighted accessors of a one-azimuth object against the exact traditional statistics
     ex1 = hvsrobj.cfg_text(1, 3, 6, "Alpha6a", "Ranges6", "NSetA", "MaxItsA", "InitEnv", export=True)
-    res, graph1 = hvsrobj.export_graph(ex1, "C11-export1", {"VERIF_K": 36 if quick else 6, "VERIF_SEED": run.seed}, timeout=3000)
+    res, graph1 = hvsrobj.export_graph(ex1, "C11-export1", {"VERIF_K": 36 if quick else 12, "VERIF_SEED": run.seed}, timeout=3000)
     run.add_tlc(res, "HvsrObject NA=1 export")
     consts1 = consts.replace("NA = 2", "NA = 1").replace("Ranges6s", "Ranges6")
     rp1 = hvsrobj.Replayer(run, hvsrpy, graph1, ALPHA6[:6], 1, 3, 6, consts1, focus={"Init"})
